@@ -66,6 +66,7 @@ var envs = []envDef{
 	{"all-unset", map[string]string{}},
 	{"all-empty", map[string]string{"A": "", "B_1": "", "u": ""}},
 	{"dollar-values", map[string]string{"A": "$B_1", "B_1": "${A:-x}"}},
+	{"blank-values", map[string]string{"A": " ", "B_1": "\t", "u": "\n"}}, // set and non-empty
 	{"mixed-1", map[string]string{"B_1": "", "u": "vu"}},
 	{"mixed-2", map[string]string{"A": "", "B_1": "vb"}},
 }
